@@ -159,6 +159,17 @@ def corpus_sweep(repo, tier, analyse, violations):
   """Every error of realistic programs (multi-line statements, decorated functions, implicit returns) x trailing directive."""
   import corpus  # pylint: disable=g-import-not-at-top
   progs = [('shape%d' % i, 'def g(*a): return a\n' + s) for i, s in enumerate(IMPLICIT_RETURN_SHAPES)]
+  # lines that the source pre-processing (preprocess.augment_annotations: bare annotations in function bodies get ` = ...`)
+  # rewrites before the directives are parsed: non-ASCII identifiers, `#` inside strings, several statements on one line
+  progs += [('rewrite%d' % i, s_) for i, s_ in enumerate([
+      'def f():\n  größenmaß: Undefined1\n  return größenmaß\n',
+      'def f():\n  名前: Undefined2\n  return 名前\n',
+      'def total(values):\n  результат: list[int, str]\n  результат = values\n  return результат\n',
+      'def f():\n  ключ: "Undefined3"\n  x: Undefined4\n  return x, ключ\n',
+      'def f(a):\n  café: Undefined5; b = a.nope\n  return b\n',
+      'def f():\n  s = "# not a comment"; ü: Undefined6\n  return s.nope\n',
+      'class K:\n  def m(self):\n    日本: Undefined7\n    self.q: Undefined8\n    return 1\n',
+  ])]
   progs += [(n_, strip_marker_comments(s_)) for n_, s_ in corpus.load(repo, stride=30 if tier == 'quick' else 3)]
   checks = 0
   nprog = 0
